@@ -306,6 +306,13 @@ type lease struct {
 	pid              string
 }
 
+func firstN(xs []any, n int) []any {
+	if len(xs) > n {
+		return xs[:n]
+	}
+	return xs
+}
+
 func jnum(v any) int64 {
 	switch x := v.(type) {
 	case json.Number:
@@ -765,6 +772,24 @@ func respMonitor(w *world, reqs map[string]M, tid string, resp map[string]any, t
 			}
 		}
 	}
+	if (monitors["C07"] || monitors["C06"]) && kind == "CompleteTask" {
+		// acknowledged => stored: a completion answered 200 / 201 means the task is finished in the database (the database
+		// changes only at exec steps, so w.prev is the store now; a finished task never becomes active again)
+		c, _ := reqs[tid]["c"].(map[string]any)
+		if st := num(resp["status"]); st == 20000 || st == 20100 {
+			xs, _ := w.prev["tasks"].([]any)
+			for _, x := range xs {
+				row, _ := x.(map[string]any)
+				if row != nil && fmt.Sprint(row["id"]) == fmt.Sprint(c["id"]) && num(row["state"]) != 8 && num(row["state"]) != 16 {
+					pid := "C07"
+					if !monitors["C07"] {
+						pid = "C06"
+					}
+					return pid, "", fmt.Sprintf("completion of task %v was acknowledged (%d) but the task is not finished in the database: state %d, counter %d", c["id"], st, num(row["state"]), num(row["counter"]))
+				}
+			}
+		}
+	}
 	if monitors["C07"] && kind == "CompleteTask" {
 		// "a completion of an already finished task is merely acknowledged": a task that was finished in the database
 		// before this request was even submitted is finished at every read of this request
@@ -979,6 +1004,58 @@ func (r *runner) apply(w *world, st Step) (M, bool) {
 				}
 			}
 			r.counts["ev:"+m["e"].(string)]++
+		}
+		if !r.implOnly && !reflect.DeepEqual(is, ms) && monitors["C02"] {
+			// the implementation answered differently from the model: is its answer still one a sequential server could give at
+			// some instant of the request's window? (the model enumerates those answers: C02.seqRun over the history so far)
+			mset := map[string]bool{}
+			for _, x := range ms {
+				mset[x] = true
+			}
+			for _, e := range in.([]any) {
+				m := e.(map[string]any)
+				b, _ := lean.Marshal(e)
+				if m["e"] != "respond" || mset[string(b)] {
+					continue
+				}
+				resp, _ := m["resp"].(map[string]any)
+				if resp == nil || jnum(resp["status"]) >= 50000 || resp["k"] == "error" {
+					continue
+				}
+				crep, _, err := r.call(M{"op": "lin_candidates", "tid": m["tid"]})
+				if err != nil || crep["found"] != true {
+					continue
+				}
+				strip := func(x any) any {
+					mm, _ := x.(map[string]any)
+					if mm == nil || mm["k"] != "claim" {
+						return x
+					}
+					out := map[string]any{}
+					for k, v := range mm {
+						out[k] = v
+					}
+					out["rootPromise"], out["leafPromise"] = nil, nil
+					return out
+				}
+				want, _ := lean.Marshal(strip(resp))
+				ok := false
+				cands, _ := crep["candidates"].([]any)
+				for _, c := range cands {
+					nc, err := lean.NormalizeValue(c)
+					if err != nil {
+						continue
+					}
+					if cb, _ := lean.Marshal(strip(nc)); string(cb) == string(want) {
+						ok = true
+						break
+					}
+				}
+				if !ok {
+					return M{"what": "linearizability: the implementation's answer is none of the answers the sequential server gives at any instant of the request's window", "property": "C02",
+						"diff": fmt.Sprintf("request %v answered %s; sequential answers in its window: %d distinct, e.g. %v", m["tid"], want, len(cands), firstN(cands, 2)), "property_violation": true, "step": st}, false
+				}
+			}
 		}
 		if !r.implOnly && !reflect.DeepEqual(is, ms) {
 			return M{"what": "events differ at " + st.Op, "step": st, "impl_only": diffStrings(is, ms), "model_only": diffStrings(ms, is)}, false
@@ -1755,6 +1832,12 @@ func (r *runner) generate(g *gen.G, cfg Cfg, bg bool, o genOpts) ([]Step, int, M
 			tid := fmt.Sprintf("r%d", nreq)
 			rq := g.Request(tid, now, o.kinds, knownTasks(), o.routedPct)
 			info, pred = do(Step{Op: "submit", Tid: tid, Req: canon.Req(rq)})
+			if info == nil && g.R.Intn(8) == 0 {
+				// a client retry racing with its original: the same request again, admitted in the same tick
+				nreq++
+				info, pred = do(Step{Op: "submit", Tid: fmt.Sprintf("r%d", nreq), Req: canon.Req(rq)})
+				r.counts["racing_duplicates"]++
+			}
 		case x < 70:
 			// complete every pending router submission, and most sender submissions, before the tick
 			for _, h := range append([]*held{}, w.aio.pending...) {
